@@ -230,6 +230,25 @@ def loading(run, exprs, descr):
         if len(g) != 1:
             run.failing(SITE, "csv-with-override", "override did not load "
                         "the csv curve", payload={"kind": "csv"})
+        else:
+            # the group holds a curve of this file; the same file without
+            # the override still lacks spring constant and tip position
+            import afmformats
+            try:
+                with warnings.catch_warnings():
+                    warnings.simplefilter("ignore")
+                    bare = afmformats.load_data(
+                        csv, data_classes_by_modality={
+                            "force-distance": Indentation})[0]
+                    g.append(bare)
+                run.failing(SITE, "csv-appended-without-spring-constant",
+                            "a curve without spring constant and tip "
+                            "position was appended to a group that already "
+                            "held a curve of the same file",
+                            payload={"kind": "rerun"},
+                            theorem="C20_append_guard")
+            except MissingMetaDataError:
+                pass
     # the append guard on synthetic curves
     rng = run.rng
     n = 6 if run.tier == "quick" else 40
@@ -256,6 +275,14 @@ def loading(run, exprs, descr):
                 i._nv_tag = tagn
             except MissingMetaDataError:
                 acc.append(False)
+            if acc[-1] != (hk or ht):
+                run.failing(
+                    SITE, f"append-guard:{t}:{j}",
+                    f"a curve with spring constant: {hk}, tip position: {ht} "
+                    f"was {'accepted' if acc[-1] else 'refused'} by a group "
+                    f"that had answered {acc[:-1]} to the curves before it "
+                    "(all of one path)", payload={"kind": "rerun"},
+                    theorem="C20_append_guard")
         got = [getattr(i, "_nv_tag", None) for i in grp]
         run.case({"append": acc}, kind="append",
                  nontrivial=(False in acc and True in acc))
